@@ -341,17 +341,26 @@ func ruleDispatchTables(c *eng.Ctx) {
 		c.Undec(R, "core.(*Parser).parseStream", token.NoPos, "anchor not found")
 	} else {
 		asserted := map[string]bool{}
-		eng.Instrs(fn, false, func(in ssa.Instruction) {
-			if ta, ok := in.(*ssa.TypeAssert); ok {
-				asserted[eng.TypeName(ta.AssertedType)] = true
+		resolves := false
+		lenCluster := eng.Cluster(fn, 2) // the /Length handling may be a helper method (streamLength)
+		for _, h := range lenCluster {
+			if h != fn && (eng.FuncName(h) == "core.(*Parser).ParseObject" || eng.FuncName(h) == "core.(*Parser).nextToken") {
+				continue
 			}
-		})
-		resolves := len(eng.Calls(fn, false, func(n string, _ ssa.CallInstruction) bool { return strings.HasSuffix(n, ".ResolveReference") })) > 0
+			eng.Instrs(h, false, func(in ssa.Instruction) {
+				if ta, ok := in.(*ssa.TypeAssert); ok {
+					asserted[eng.TypeName(ta.AssertedType)] = true
+				}
+			})
+			if len(eng.Calls(h, false, func(n string, _ ssa.CallInstruction) bool { return strings.HasSuffix(n, ".ResolveReference") })) > 0 {
+				resolves = true
+			}
+		}
 		c.Check(asserted["core.Int"] && asserted["core.IndirectRef"] && resolves, R, "core.(*Parser).parseStream#length-kinds", fn.Pos(), "/Length may be direct or indirect", "parseStream no longer handles both a direct and an indirect /Length")
 		// ReadBytes(length): the argument derives from the Length value
 		okLen := false
 		for _, ci := range eng.CallsNamed(fn, false, "core.(*Lexer).ReadBytes") {
-			for v := range eng.Slice(ci.Common().Args[1], nil) {
+			for v := range eng.SliceInter(ci.Common().Args[1], nil, lenCluster) {
 				if ta, ok := v.(*ssa.TypeAssert); ok && (eng.TypeName(ta.AssertedType) == "core.Int") {
 					okLen = true
 				}
